@@ -75,7 +75,12 @@ def decoder(ck, prog, config, ca='C20-a', cb='C20-b', cc='C20-c', cd='C20-d'):
             cur = st.env.get(kl)
             if accepting:
                 n_accept += 1
-                offs = [r[1] for r in reads]
+                # the same input byte may be read more than once (low bits and stop bit taken separately): bytes are
+                # counted by offset, in the order in which they are first read
+                offs = []
+                for r in reads:
+                    if r[1] not in offs:
+                        offs.append(r[1])
                 n = len(offs)
                 for r in reads:
                     if not r[3]:
@@ -85,7 +90,8 @@ def decoder(ck, prog, config, ca='C20-a', cb='C20-b', cc='C20-c', cd='C20-d'):
                     problems.append(('reads', node.line, 'accepting path reads offsets %s, expected 0..%d' % (offs, n - 1)))
                 if n > maxc:
                     problems.append(('too-long', node.line, 'accepting path reads %d bytes (> MAX_COMP_SIZE)' % n))
-                if st.stop is None or st.stop != len(st.reads) - 1:
+                stop_off = st.reads[st.stop][1] if (st.stop is not None and 0 <= st.stop < len(st.reads)) else None
+                if stop_off is None or not offs or stop_off != offs[-1]:
                     problems.append(('unterminated', node.line, 'a %d-byte encoding is accepted on a path that never found '
                                      'the stop bit (>= 128) in the last byte it read: an encoding that does not end '
                                      'within %d bytes decodes with success' % (n, maxc)))
